@@ -1,22 +1,23 @@
 """C11 -- persistence images are additive, order-free and call-style independent."""
 from .. import tlc, imgs
-LEVEL = "exploration"
-RULE = ("Per configuration (uniform / isotropic / axis-aligned / correlated Gaussian kernels; persistence^n, linear_ramp and user weights) the "
+LEVEL = "model_checking"
+RULE = ("M: ImageAccumulate.tla -- PersistenceImager.transform as a state machine (empty-argument early return, single / collection dispatch, serial or ANY worker schedule, private copy + skew conversion, one AddPoint per pair, assembly); PartialIsDef, ResultIsDef, EmptyIsZero, OneElementCollectionStaysAList, NonNegativeBounded, ArgUntouched and the lemmas on the definition (Additive, OrderFree, ZeroWeightNothing, SkewFormIrrelevant, CodedMassIsDefMass) for every call within the constants. R: every call TLC enumerated (diagrams and collections on the tick lattice, both input forms, with the expected numerators) replayed on a real imager with the box kernel, serially and through joblib workers; decided exactly by TraceAccumulate.tla with the model's own definitional operators. V: "
+        "Per configuration (uniform / isotropic / axis-aligned / correlated Gaussian kernels; persistence^n, linear_ramp and user weights) the "
         "images of X, Y, Z, X+Y, a permutation of X+Y, X plus zero-persistence points, the empty diagram, X with a repeated pair, and X "
         "pre-converted to birth-persistence form (skew=False) are recorded -- each alone, inside collections, and through joblib workers "
         "(n_jobs 1, 2, 4). TraceImage.tla discovers the relations from the diagrams: equal multisets of non-zero-weight birth-persistence "
         "points => equal images (order, call style, worker count, skew form), union => sum, empty or all-zero-weight => all zeros of the "
-        "configured shape, non-negative weights => pixels >= 0 and total <= total weight. Tolerance 1e-12. Level exploration.")
+        "configured shape, non-negative weights => pixels >= 0 and total <= total weight. Tolerance 1e-12.")
 
 
 def run(ctx):
     quick = ctx.tier == "quick"
     ctx.rule = RULE
-    ctx.level = "exploration"
     r = tlc.run_tlc("TestTables", init="Init", nxt="Next")
     ctx.model("Tables.tla constant relations (ASSUME)", r)
     r = tlc.run_tlc("ImagePixel", workers=16, constants=dict(MaxC=3, MaxW=2) if quick else dict(MaxC=4, MaxW=3), invariants=["InclusionExclusionIsMass", "Additive", "NonNegativeAtMostOne"], heap="6g")
     ctx.model("ImagePixel: corner inclusion-exclusion of the box CDF = overlap mass, additive over a pixel grid, within [0,1]", r)
+    imgs.model_and_replay(ctx, "C11", quick)
     imgs.run(ctx, "C11", 150 if quick else 1500, 4 if quick else 30)
     legacy_persimage(ctx, 60 if quick else 600)
 
